@@ -170,6 +170,7 @@ def judge(ctx, traces, verdicts):
         traces_validated=len(traces), assumptions=ASSUMPTIONS,
         extra=dict(trace_sources=dict(collections.Counter(t.get('src') for t in traces)),
                    exercised=dict(flags),
+                   watchdog_extension=getattr(ctx, 'wd_ext', None),
                    extensions=dict(
                        what='node start: VipMgr/RuleMgr/EndpointsMgr.initialize as Initialize(db) at arbitrary '
                             'points of a history (ext.init.removed, ext.init.kept); model-checked in the '
@@ -180,9 +181,21 @@ def judge(ctx, traces, verdicts):
                        failed=dict(ext_failed))))
 
 
+def _watchdog_ext(ctx):
+    """Beyond C14: the lease files of treadmill.watchdog against specs/node/Watchdog.tla (DRIFT class; a
+    failure of this extension never decides C14)."""
+    from .. import watchdog_driver
+    try:
+        return watchdog_driver.run_ext(ctx)
+    except Exception as e:  # pylint: disable=broad-except
+        ctx.log('ext watchdog not evaluated: %s: %s' % (type(e).__name__, str(e)[:300]))
+        return dict(error='%s: %s' % (type(e).__name__, str(e)[:300]))
+
+
 def run(ctx):
     jtmp, old = _tmp_env()
     try:
+        ctx.wd_ext = _watchdog_ext(ctx)
         cex = _mc(ctx)
         hist = [('cex', h) for h in cex] + _gen(ctx)
         ctx.log('%d histories (%d from TLC)' % (len(hist), sum(1 for s, _ in hist if not s.startswith('rnd'))))
